@@ -2,7 +2,7 @@
    oracle (fdiv, fmul, fround) and every matrix-inverse oracle: they are universally quantified. *)
 From Coq Require Import ZArith List Bool String.
 From PV Require Import Base.Tok Base.TokArith Base.NpSearch C04.Model C04.Proofs C04.Model2 C04.Spec C04.Proofs2 C04.Params
-  C04.ParamsProofs C04.Link C04.Proofs3 C04.Proofs4.
+  C04.ParamsProofs C04.Link C04.Proofs3 C04.Proofs4 C04.Proofs5.
 From PV Require C01.Model C02.Model C02.Spec.
 Import ListNotations.
 Open Scope string_scope.
@@ -200,6 +200,21 @@ Theorem C04_loadx_load : forall fdiv fmul fround inv fs rate ncd mx,
 Proof. exact loadx_inv. Qed.
 Print Assumptions C04_loadx_load.
 
+(* the specification is TIGHT: on a well-formed directory any two models satisfying Load_spec agree on every attribute
+   (the extra per-spike attributes as sets of (name, array)) -- Load_spec leaves nothing about the loaded model open *)
+Theorem C04_spec_tight : forall fdiv fmul fround inv fs rate ncd mx mx',
+  wf_b fdiv fmul fround fs rate ncd = true ->
+  Load_spec fdiv fmul fround inv fs rate ncd mx -> Load_spec fdiv fmul fround inv fs rate ncd mx' ->
+  let m := lx mx in let m' := lx mx' in
+  l_samples m = l_samples m' /\ l_times m = l_times m' /\ l_amps m = l_amps m' /\ l_stemplates m = l_stemplates m' /\
+  l_sclusters m = l_sclusters m' /\ l_cmap m = l_cmap m' /\ l_pos m = l_pos m' /\ l_shanks m = l_shanks m' /\
+  l_probes m = l_probes m' /\ l_tdata m = l_tdata m' /\ l_tcols m = l_tcols m' /\ l_wm m = l_wm m' /\
+  l_wmi m = l_wmi m' /\ l_similar m = l_similar m' /\ l_created m = l_created m' /\
+  lx_reordered mx = lx_reordered mx' /\
+  (forall n a, In (n, a) (l_attrs m) <-> In (n, a) (l_attrs m')).
+Proof. intros fdiv fmul fround inv fs rate ncd mx mx' W. apply spec_tight. exact (wf_unique _ _ _ _ _ _ W). Qed.
+Print Assumptions C04_spec_tight.
+
 (* "all-NaN templates zeroed in memory" (the function Load_spec's template rule is phrased with), declaratively:
    template k of the loaded waveforms is all zeros when template k of the file is entirely NaN, and is template k
    of the file value for value -- NaN and inf entries included, the file being memory-mapped -- otherwise *)
@@ -310,3 +325,8 @@ Example C04_ex_nan_templates :
   arr_wf x = true /\
   zero_nan_templates x = Ok (mkarr DF32 [2; 2; 2] [TNum 1 0; TNaN; TPInf; TNum 1 2; TNum 0 0; TNum 0 0; TNum 0 0; TNum 0 0]).
 Proof. vm_compute. split; reflexivity. Qed.
+(* the premises of C04_load_spec / C04_spec_tight are satisfiable: the example directory is well-formed (C04_ex_wf) and
+   the model it loads satisfies the specification *)
+Example C04_ex_spec :
+  exists mx, Load_spec ex_div ex_mul ex_round (fun a => a) ex_files2 (TNum 1 1) (Some 2) mx.
+Proof. eexists. apply C04_load_spec. vm_compute. reflexivity. Qed.
